@@ -15,7 +15,7 @@ func init() {
 	Register(&PropDef{
 		ID: "C03", Title: "no readable user text on the wire when encryption is due",
 		Config: c03Config, Run: c03Run, MaxSteps: 90,
-		Rule: "runs = PRNG-generated lifecycle histories (plaintext, AKE in progress, encrypted, peer End -> finished, own End, re-AKE, error messages, peer crash/restart, SMP, extra key, fragment sizes) under PRNG-chosen policy sets for both parties (all 64 combinations appear in a batch); every output of every API call is searched (raw, base64-decoded, reassembled across fragments) for every text the party was ever given; " +
+		Rule: "runs = PRNG-generated lifecycle histories (plaintext, AKE in progress, encrypted, peer End -> finished, own End, re-AKE, error messages, peer crash/restart, SMP, extra key, fragment sizes, user texts that themselves look like OTR queries/errors/encoded messages, in a third of the runs single failures of the randomness source at PRNG-chosen reads) under PRNG-chosen policy sets for both parties (all 64 combinations appear in a batch); every output of every API call is searched (raw, base64-decoded, reassembled across fragments) for every text the party was ever given; " +
 			"non-trivial = a party passed through at least 2 of the states plaintext/encrypted/finished/queued and emitted at least 5 messages; distinct = distinct (policies, step sequence) signatures",
 		Assume: []string{"texts are >= 12 bytes of unique printable payload, so a substring hit is never accidental",
 			"'decipherable only with the session's DH secrets' is checked as: ciphertext decrypts to the text under the key the reference derives from the two parties' drawn exponents, and not under the all-zero key, the MAC key, or a key of the previous session"},
@@ -44,6 +44,7 @@ func c03Config(rc *RunCtx) {
 		{KeyIdx: 0, Pol: pa, Peer: 1, Frag: fa, ErrHandler: r.Bool()},
 		{KeyIdx: 1, Pol: pb, Peer: 0, Frag: fb, ErrHandler: r.Bool()},
 	}
+	rc.Cfg["randfault"] = r.Intn(3) / 2 // a third of the runs: reads of the randomness source fail at PRNG-chosen moments
 }
 
 // readable reports whether text occurs in a complete wire message, raw or inside its base64 body.
@@ -95,7 +96,11 @@ func c03Run(rc *RunCtx) *Violation {
 			case r.Kind == "end":
 				pre[i] = "plaintext"
 			case pre[i] == "encrypted" && !r.Post.Enc:
-				pre[i] = "plaintext"
+				// Neither End nor the peer's disconnect: the user was told "secure" and has been told
+				// nothing else since. Whatever the library now reports about itself, encryption is
+				// still due for what the user types (a conversation that silently falls back to
+				// plain text, e.g. after a failure of the randomness source, leaks the next Send).
+				rc.Probe("left_encrypted_without_end_or_disconnect")
 			}
 			seenStates[i][pre[i]] = true
 		}()
@@ -199,8 +204,11 @@ func c03Run(rc *RunCtx) *Violation {
 		r := rc.Rng
 		encA, encB := w.P[0].Conv.IsEncrypted(), w.P[1].Conv.IsEncrypted()
 		fly := [2]int{w.InFlight(0, 1), w.InFlight(1, 0)}
-		// query sendA sendB delAB delBA tick end smpstart smpanswer extrakey setfrag drop crash errinj
-		wt := []int{2, 10, 10, 16, 16, 2, 2, 0, 0, 0, 1, 1, 1, 1}
+		// query sendA sendB delAB delBA tick end smpstart smpanswer extrakey setfrag drop crash errinj randfault
+		wt := []int{2, 10, 10, 16, 16, 2, 2, 0, 0, 0, 1, 1, 1, 1, 0}
+		if rc.Cfg["randfault"] == 1 {
+			wt[14] = 3
+		}
 		if fly[0] == 0 {
 			wt[3] = 0
 		}
@@ -223,9 +231,9 @@ func c03Run(rc *RunCtx) *Violation {
 		case 0:
 			return Step{K: "query", A: r.Intn(2)}, true
 		case 1:
-			return Step{K: "send", A: 0, B: 2 + r.Intn(4)}, true
+			return Step{K: "send", A: 0, B: 2 + r.Intn(4), C: textAlphabet(r)}, true
 		case 2:
-			return Step{K: "send", A: 1, B: 2 + r.Intn(4)}, true
+			return Step{K: "send", A: 1, B: 2 + r.Intn(4), C: textAlphabet(r)}, true
 		case 3:
 			return Step{K: "deliver", A: 0, B: 1}, true
 		case 4:
@@ -254,6 +262,8 @@ func c03Run(rc *RunCtx) *Violation {
 			return Step{K: "drop", A: a, B: 1 - a}, true
 		case 12:
 			return Step{K: "crash", A: r.Intn(2), B: r.Intn(2)}, true
+		case 14:
+			return Step{K: "randfault", A: r.Intn(2), B: r.Intn(4), C: r.Intn(4)}, true
 		default:
 			return Step{K: "errinj", A: r.Intn(2)}, true
 		}
@@ -272,6 +282,11 @@ func c03Run(rc *RunCtx) *Violation {
 			w.Crash(i, s.B%2 == 1)
 			pre[i] = "plaintext"
 			w.P[i].SentText = nil // the restarted process knows nothing of earlier texts
+		case "randfault":
+			// one of the next multi-byte reads of this party's randomness source fails (once)
+			q := w.P[s.A%2]
+			q.Rand.FailAt, q.Rand.Mode = q.Rand.reads+s.B%4, 1+s.C%4
+			w.Fault("rand-read-fails")
 		case "errinj":
 			to := s.A % 2
 			w.Put(1-to, to, []byte("?OTR Error: injected"), false, -1, -1, "error-injection")
